@@ -28,6 +28,10 @@ pub use leaf_updater::verif as leaf_updater_verif;
 pub use branch_updater::verif as branch_updater_verif;
 #[cfg(nomt_verif)]
 pub use branch_stage::verif as branch_stage_verif;
+#[cfg(nomt_verif)]
+pub use extend_range_protocol::verif as extend_range_verif;
+#[cfg(nomt_verif)]
+pub use leaf_stage::verif as leaf_stage_verif;
 
 #[cfg(test)]
 mod tests;
